@@ -41,13 +41,18 @@ SimpleHolds(fields, c, stored) ==
      \/ \E j \in 1..Len(c.items) : ItemHolds(c.items[j], stored[FieldOf(fields, c)])
 
 -----------------------------------------------------------------------------
-(* code-shaped resolution rule: DataFieldSet::hasField / SingleDataField::hasField                  *)
+(* code-shaped resolution rule: DataFieldSet::hasField / SingleDataField::hasField.                  *)
+(* Default = the repaired code (a set has the field iff one of its fields has it); the rule before   *)
+(* the repair ("== 0": iff one of its fields does NOT have it) is kept as ...Pinned for the           *)
+(* design-level comparison and for naming exactly that regression.                                    *)
 SingleHasField(f, named, numeric) == (numeric = (f.k = "num")) /\ (named = 0 \/ named = f.n)
+SetHasField(fields, named, numeric) == \E i \in 1..Len(fields) : SingleHasField(fields[i], named, numeric)
 SetHasFieldPinned(fields, named, numeric) == \E i \in 1..Len(fields) : ~SingleHasField(fields[i], named, numeric)
-SetHasFieldFixed(fields, named, numeric) == \E i \in 1..Len(fields) : SingleHasField(fields[i], named, numeric)
 (* a message with one field is a SingleDataField, with more a DataFieldSet                          *)
-SHasField(fields, named, numeric, pinned) ==
-  IF Len(fields) = 1 THEN SingleHasField(fields[1], named, numeric)
-  ELSE IF pinned THEN SetHasFieldPinned(fields, named, numeric) ELSE SetHasFieldFixed(fields, named, numeric)
-SResolves(exists, fields, c, pinned) == exists /\ (c.k = "seen" \/ SHasField(fields, c.fn, c.k = "num", pinned))
+SHasField(fields, named, numeric) ==
+  IF Len(fields) = 1 THEN SingleHasField(fields[1], named, numeric) ELSE SetHasField(fields, named, numeric)
+SHasFieldPinned(fields, named, numeric) ==
+  IF Len(fields) = 1 THEN SingleHasField(fields[1], named, numeric) ELSE SetHasFieldPinned(fields, named, numeric)
+SResolves(exists, fields, c) == exists /\ (c.k = "seen" \/ SHasField(fields, c.fn, c.k = "num"))
+SResolvesPinned(exists, fields, c) == exists /\ (c.k = "seen" \/ SHasFieldPinned(fields, c.fn, c.k = "num"))
 =============================================================================
